@@ -152,7 +152,17 @@ def run_shard(args):
     d = os.path.join(outdir, 's%d' % shard)
     os.makedirs(d, exist_ok=True)
     full = [HBIN] + cmd + ['--shard', '%d/%d' % (shard, NSHARDS), '--out', d]
-    r = subprocess.run(full, stdout=subprocess.PIPE, stderr=subprocess.STDOUT, text=True)
+    # watchdog: on the unchanged tree a quick shard takes seconds; a shard that does not finish is a search (or a
+    # compilation) that does not terminate within any reasonable budget - reported with the pattern it was working on
+    budget = int(os.environ.get('VERIF_SHARD_TIMEOUT', '7200' if 'thorough' in cmd else '900'))
+    try:
+        r = subprocess.run(full, stdout=subprocess.PIPE, stderr=subprocess.STDOUT, text=True, timeout=budget)
+    except subprocess.TimeoutExpired:
+        cur = os.path.join(d, 'current.txt')
+        extra = ''
+        if os.path.exists(cur):
+            extra = ' while processing: ' + open(cur, errors='replace').read()[:300]
+        return d, 'harness process died (did not finish within %d s: non-terminating or extremely slow call)%s' % (budget, extra)
     if r.returncode != 0:
         cur = os.path.join(d, 'current.txt')
         extra = ''
